@@ -93,7 +93,7 @@ static Janet cfun_array_remove_c(int32_t argc, Janet *argv)
 CF_PRE CF_FRAME RET_ARG0
 #ifdef SEQ_REMOVE_NO_OVERFLOW
 /* restricted variant (unit seq.cfun.array.remove.small-n): at + n representable. The unrestricted unit fails, see known defect */
-__CPROVER_requires(argc < 3 || (int64_t)SLOT_INT(argv, 2) + g_arr->count <= INT32_MAX)
+__CPROVER_requires(argc < 2 || REM_N0(argc, argv) + g_arr->count <= INT32_MAX)
 #endif
 __CPROVER_ensures(WF_ARRAY(g_arr))
 __CPROVER_ensures(argc >= 2 && argc <= 3 && REM_AT(argv) >= 0 && REM_AT(argv) <= g_oldcount && REM_N0(argc, argv) >= 0)
